@@ -283,7 +283,7 @@ HARNESSES.append(RACE)
 
 # ------------------------------------------------------------------------------ K-comp
 def kcomp_params(tier):
-    return [P("slash", 0, 1), P("phase", 0, 1), P("desc", 0, 1)]
+    return [P("slash", 0, 1), P("phase", 0, 1), P("desc", 0, 1), P("zeroq", 0, 1)]
 
 
 @guard
@@ -293,14 +293,24 @@ def kcomp_fn(a, tier):
     from asphalt.core import Component, add_resource, add_resource_factory, start_component
 
     slash, phase, desc = pick(a["slash"], 2), pick(a["phase"], 2), pick(a["desc"], 2)
+    zeroq = pick(a["zeroq"], 2)  # the listener uses max_queue_size=0 (hand-off only) and is waiting again before every publication
+
+    async def settle():
+        if zeroq:
+            await anyio.wait_all_tasks_blocked()
+
     d = (lambda text: text) if desc else (lambda text: None)
     events = []
     made = object()
 
     async def publish():
+        await settle()
         add_resource(object(), types=[T0], description=d("the default-named one"))
+        await settle()
         add_resource(object(), "named", [T1, T0], description=d("two types, explicit name"))
+        await settle()
         add_resource_factory(lambda: made, "fac", types=[T1], description=d("a factory"))
+        await settle()
 
     class Leaf(Component):
         async def prepare(self):
@@ -318,13 +328,14 @@ def kcomp_fn(a, tier):
     async def main():
         async with Context() as ctx, anyio.create_task_group() as tg:
             async def listen(*, task_status):
-                async with ctx.resource_added.stream_events() as stream:
+                async with ctx.resource_added.stream_events(**({"max_queue_size": 0} if zeroq else {})) as stream:
                     task_status.started()
                     async for ev in stream:
                         events.append((tuple(ev.resource_types), ev.resource_name, ev.resource_description, ev.is_factory))
 
             await tg.start(listen)
             await start_component(Top, {}, timeout=None)
+            await settle()
             got = ctx.get_resource_nowait(T1, "fac")
             await anyio.wait_all_tasks_blocked()
             tg.cancel_scope.cancel()
@@ -332,7 +343,7 @@ def kcomp_fn(a, tier):
                 events.append("wrong factory product")
 
     _, exc, _k = run(main)
-    summary = {"alias": "leaf/special" if slash else "leaf", "published_in": ["prepare()", "start()"][phase], "with_descriptions": bool(desc)}
+    summary = {"alias": "leaf/special" if slash else "leaf", "published_in": ["prepare()", "start()"][phase], "with_descriptions": bool(desc), "listener_queue": 0 if zeroq else "default"}
     if exc is not None:
         return FAIL(f"kcomp:raised:{type(exc).__name__}", repr(exc), summary)
     default_name = "special" if (slash and phase == 1) else "default"
